@@ -299,7 +299,14 @@ pub fn generate(rng: &Rng, world: &World, tier: &str) -> C16 {
         if crate::c04::big_model() {
             for (i, l) in ["big_1", "big_2"].iter().enumerate() {
                 if i == 0 || r.chance(1, 2) {
-                    sets.push((l.to_string(), SetSpec::Large(r.next_u64() % 1_000_000, r.range(1500, 6000) as u64)));
+                    let n = if r.chance(1, 2) {
+                        r.range(1500, 6000) as u64
+                    } else {
+                        // text size just below a multiple of 32 KiB (often of 128 KiB)
+                        let unit = if r.chance(1, 2) { 131072u64 } else { 32768 };
+                        1_000_000 + unit * r.range(1, 3) as u64 - r.range(0, 6000) as u64
+                    };
+                    sets.push((l.to_string(), SetSpec::Large(r.next_u64() % 1_000_000, n)));
                 }
             }
         }
@@ -448,6 +455,48 @@ pub fn build_set(graph: &SymbolicAsyncGraph, spec: &SetSpec) -> Result<Gcv, Stri
             Ok(GraphColoredVertices::new(b, ctx).intersect(graph.unit_colored_vertices()))
         }
         SetSpec::ResultOf(f) => mc::model_check_formula_dirty(&f.render(), graph),
+        SetSpec::Large(seed, n) if *n >= 1_000_000 => {
+            // `n` = 1_000_000 + target size in bytes of the text form: states are added until the
+            // serialisation comes within 2 KB below the target (sizes next to the buffer sizes of
+            // the compression layer - multiples of 32 KiB / 128 KiB - are where flush bugs live)
+            let target = (*n - 1_000_000) as usize;
+            let mut rng = Rng::new(*seed);
+            let ctx = graph.symbolic_context();
+            let vs = ctx.bdd_variable_set();
+            let state = ctx.state_variables().clone();
+            let mut acc = vs.mk_false();
+            for _round in 0..400 {
+                let mut layer: Vec<biodivine_lib_bdd::Bdd> = Vec::new();
+                for _ in 0..40 {
+                    let vals: Vec<(biodivine_lib_bdd::BddVariable, bool)> = state.iter().map(|v| (*v, rng.chance(1, 2))).collect();
+                    layer.push(vs.mk_conjunctive_clause(&biodivine_lib_bdd::BddPartialValuation::from_values(&vals)));
+                }
+                while layer.len() > 1 {
+                    let mut next = Vec::new();
+                    for pair in layer.chunks(2) {
+                        next.push(if pair.len() == 2 { pair[0].or(&pair[1]) } else { pair[0].clone() });
+                    }
+                    layer = next;
+                }
+                let cand = acc.or(&layer[0]);
+                if cand.to_string().len() + 2000 > target && !acc.is_false() {
+                    // finish with single states
+                    let mut fine = acc.clone();
+                    for _ in 0..200 {
+                        let vals: Vec<(biodivine_lib_bdd::BddVariable, bool)> = state.iter().map(|v| (*v, rng.chance(1, 2))).collect();
+                        let c2 = fine.or(&vs.mk_conjunctive_clause(&biodivine_lib_bdd::BddPartialValuation::from_values(&vals)));
+                        if c2.to_string().len() > target {
+                            break;
+                        }
+                        fine = c2;
+                    }
+                    acc = fine;
+                    break;
+                }
+                acc = cand;
+            }
+            Ok(GraphColoredVertices::new(acc, ctx).intersect(graph.unit_colored_vertices()))
+        }
         SetSpec::Large(seed, n) => {
             let mut rng = Rng::new(*seed);
             let ctx = graph.symbolic_context();
@@ -1316,7 +1365,7 @@ pub fn shrinks(sc: &C16) -> Vec<C16> {
     }
     for i in 0..sc.sets.len() {
         if let SetSpec::Large(seed, n) = &sc.sets[i].1 {
-            if *n > 64 {
+            if *n > 64 && *n < 1_000_000 {
                 let mut s = sc.clone();
                 s.sets[i].1 = SetSpec::Large(*seed, n / 2);
                 out.push(s);
